@@ -15,6 +15,8 @@ STOP = {"Quantity::iter_units", "Quantity::unit_from_symbol", "Quantity::fmt", "
         "LinearScaledUnit::from_scale", "LinearScaledUnit::is_ref_unit", "HasRefUnit::unit_from_scale", "HasRefUnit::_fit",
         "HasRefUnit::convert", "HasRefUnit::eq", "HasRefUnit::partial_cmp", "HasRefUnit::add", "HasRefUnit::sub", "HasRefUnit::div",
         "Quantity::eq", "Quantity::partial_cmp", "Quantity::add", "Quantity::sub", "Quantity::div"}
+# for the lookups: delegation between the four lookup functions is transparent
+STOP_LOOKUP = STOP - {"LinearScaledUnit::from_scale", "HasRefUnit::unit_from_scale", "Unit::from_symbol", "Quantity::unit_from_symbol"}
 
 
 def body(U, path, rule="anchor"):
@@ -24,9 +26,9 @@ def body(U, path, rule="anchor"):
     return b
 
 
-def summarize(U, path, inline=(), keep_tags=False, args=None):
+def summarize(U, path, inline=(), keep_tags=False, args=None, stop=None):
     b = body(U, path)
-    ev = T.Evaluator(U, inline=inline, keep_tags=keep_tags, stop=STOP)
+    ev = T.Evaluator(U, inline=inline, keep_tags=keep_tags, stop=STOP if stop is None else stop)
     try:
         outs = ev.summarize(b, args=args)
     except T.Unsupported as u:
